@@ -59,7 +59,13 @@ def render(kind, hist, label=False, arr=None):
             d = "%sint x%s%s;" % (sp, lab, " = 1" if form == "def" else "")
         else:
             d = "%sint f(void)%s%s" % (sp, lab, " { return 1; }" if form == "def" else ";")
-        if scope == "block":
+        if scope == "hblock":
+            # the declaration sits in a block nested inside the scope of a local of the same name that has no linkage: it still
+            # denotes the file-scope entity (6.2.2p4 looks at the declaration *with linkage* that is visible or was hidden)
+            nblock += 1
+            nm = "x" if kind == "obj" else "f"
+            out.append("void host%d(void) { int %s = 0; { %s %s; } (void)%s; }" % (nblock, nm, d, "x++" if kind == "obj" else "f()", nm))
+        elif scope == "block":
             nblock += 1
             out.append("void host%d(void) { %s }" % (nblock, d))
         else:
@@ -222,6 +228,23 @@ def hist_enum(ctx):
                     yield {"kind": kind, "hist": [list(h) for h in hist]}
                     if hist[0][1] == "file" and (kind == "obj" or hist[0][2] == "decl") and (n <= 2 or any(h[1] == "block" for h in hist[1:])):
                         yield {"kind": kind, "hist": [list(h) for h in hist], "label": True}
+        # histories with one declaration hidden behind a local without linkage
+        hopts = [("extern", "hblock", "decl"), ("", "hblock", "decl")] if kind == "fn" else [("extern", "hblock", "decl"), ("extern _Thread_local", "hblock", "decl"), ("static", "hblock", "decl")]
+        # (not with internal linkage at file scope: the hidden declaration then gets external linkage, 6.2.2p4, and the unit is
+        # undefined by 6.2.2p7 - gcc and clang accept it silently, cproc diagnoses it)
+        fileopts = [o for o in opts if o[1] == "file" and "static" not in o[0]]
+        for h in hopts:
+            for a in fileopts:
+                for order in ((a, h), (h, a)):
+                    yield {"kind": kind, "hist": [list(x) for x in order]}
+                    if order[0][1] == "file" and (kind == "obj" or order[0][2] == "decl"):
+                        yield {"kind": kind, "hist": [list(x) for x in order], "label": True}
+                for b in fileopts:
+                    k += 1
+                    if ctx.tier == "thorough" or (k * 2654435761 + ctx.seed * 97) % 5 == 0:
+                        yield {"kind": kind, "hist": [list(a), list(h), list(b)]}
+                        if kind == "obj" or a[2] == "decl":
+                            yield {"kind": kind, "hist": [list(a), list(h), list(b)], "label": True}
         if kind == "obj":
             # array-typed histories: which declarations give the length
             for n in (1, 2, 3):
